@@ -15,7 +15,8 @@ Record case := {
   c_sync_timeouts : N;               (* Syncs at which ups - downs never reached pending *)
   c_gauge : Z;                       (* ups - downs after Stop returned *)
   c_cnt : list Z;                    (* [response_20x; response_errors; send_errors; send_retries; batches_sent; messages_sent] *)
-  c_burst : list N                   (* ids enqueued by goroutines released together as the first events of new destinations *)
+  c_burst : list N;                  (* ids enqueued by goroutines released together as the first events of new destinations *)
+  c_bad_bodies : N                   (* attempts whose body was not the serialized events of a batch (undecodable) *)
 }.
 
 Definition beh_of (c : case) (k : N) : list resp :=
@@ -41,6 +42,7 @@ Definition model_agrees (c : case) : bool :=
   match run (gen_cfg (c_max c) (c_bt c)) (beh_of c) (bad_of c) (c_t0 c) (c_ops c) with
   | None => false
   | Some r =>
+      N.eqb (c_bad_bodies c) 0 &&
       list_eqb obs_req_eqb (sort_by o_first (map req_to_obs (filter (fun q => negb (N.eqb (rq_attempts q) 0)) (r_reqs r)))) (c_reqs c) &&
       list_eqb Z.eqb (zsort (r_sleeps r)) (c_sleeps c) &&
       list_eqb Z.eqb (r_syncs r) (map fst (c_syncs c)) &&
@@ -86,7 +88,8 @@ Definition monitor (c : case) : codes :=
   flat_map (req_codes c ets) (c_reqs c) ++
   (if negb (c_gauge c =? 0) || existsb (fun gp => negb (fst gp =? snd gp)) (c_syncs c) || negb (N.eqb (c_sync_timeouts c) 0)
    then [17%N] else []) ++
-  (if nth 1 (c_cnt c) 0 <? nover then [18%N] else []).
+  (if nth 1 (c_cnt c) 0 <? nover then [18%N] else []) ++
+  (if N.eqb (c_bad_bodies c) 0 then [] else [21%N]).
 
 Definition check (c : case) : codes :=
   (if model_agrees c then [] else [code_mismatch]) ++ monitor c.
